@@ -15,11 +15,7 @@
 (*    Names a configuration cannot call are probed through the routes      *)
 (*    direct and sym only unless VERIF_SB_ALLROUTES=1 (thorough tier).     *)
 (***************************************************************************)
-EXTENDS Sandbox, Json, IOUtils
-
-(* parse the universe once (TLC would otherwise re-evaluate the operator) *)
-ASSUME TLCSet(12, ndJsonDeserialize(IOEnv.VERIF_UNIVERSE)[1])
-MCU == TLCGet(12)
+EXTENDS Sandbox
 
 AllRoutes == "VERIF_SB_ALLROUTES" \in DOMAIN IOEnv /\ IOEnv.VERIF_SB_ALLROUTES = "1"
 
